@@ -6,29 +6,29 @@ def add(pid, cat, text, note, technique, design):
     P[pid] = dict(cat=cat, text=text, note=note, technique=technique, design=design)
 
 add("C04", "exploration",
-    "Exhaustive enumeration of the u8/u16 sub-domain (every byte value/pair at every position and failing offset of short buffers, all five specs) plus seeded proptest search over all widths, boundary/sign patterns and offsets up to usize::MAX, judged against a shift-and-add reference, plus reads whose window ends at or beyond byte 2^32 of a 4 GiB+64 byte buffer of lazily mapped zero pages; the run-time and native specifications must return exactly what the matching fixed one returns (value, error variant and payload, cursor); the domain is small and closed-form, so enumeration+random search is the natural level.",
+    "Exhaustive enumeration of the u8/u16 sub-domain (every byte value/pair at every position and failing offset of short buffers, all five specs) plus seeded proptest search over all widths, boundary/sign patterns and offsets up to usize::MAX, judged against a shift-and-add reference, incl. cursors 2^s+i (s in 32..63) that alias a readable offset if high bits are dropped, plus reads whose window ends at or beyond byte 2^32 of a 4 GiB+64 byte buffer of lazily mapped zero pages; the run-time and native specifications must return exactly what the matching fixed one returns (value, error variant and payload, cursor); the domain is small and closed-form, so enumeration+random search is the natural level.",
     "Trusts the 12-line shift-and-add reference and the 64-bit little-endian host for the NativeEndian clause.",
     "exhaustive enumeration + property-based testing (proptest) against a reference implementation", "DESIGN.md §5 C04")
 
 add("C02", "exploration",
-    "Seeded proptest search over field-value assignments (boundary, top-bit, per-byte-distinct, raw) for 18 structure types x 4 encodings x fixed/run-time specs, judged against an independent ELF writer (inverse oracle) whose layout is checked against <elf.h>; the 2^16 domain of the derived one-/two-byte accessors is enumerated exhaustively; further sub-checks decode note headers through NoteIterator (the crate's NoteHeader is private), the crate-private version link fields through where the iterators go, and the packed version index at its use site (get_requirement/get_definition with the hidden bit). Comparisons are field by field (never through the crate's own PartialEq) and buffers sit at every address residue. Random+boundary search is the right level: each field is decoded independently, so a wrong width/extension/mask/order shows on a large share of cases.",
+    "Seeded proptest search over field-value assignments (boundary, top-bit, per-byte-distinct, raw) for 18 structure types x 4 encodings x fixed/run-time specs, judged against an independent ELF writer (inverse oracle) whose layout is checked against <elf.h>; the 2^16 domain of the derived one-/two-byte accessors is enumerated exhaustively; further sub-checks decode note headers through NoteIterator (the crate's NoteHeader is private), the crate-private version link fields through where the iterators go, and the packed version index at its use site (get_requirement/get_definition with the hidden bit; several symbols of one version resolved on ONE table handle in a generated order, so a memo cannot leak one symbol's hidden bit into another's answer); last/count/nth run on a one-entry table followed by a partial entry. Comparisons are field by field (never through the crate's own PartialEq) and buffers sit at every address residue. Random+boundary search is the right level: each field is decoded independently, so a wrong width/extension/mask/order shows on a large share of cases.",
     "Trusts the writer (cross-checked field by field against glibc <elf.h> offsets at start-up) and the ABI macro transcriptions (ELF32_R_*, ELF64_R_*, ELF_ST_*).",
     "property-based testing (proptest) with an inverse (encoder) oracle + exhaustive enumeration of 2^16 accessor inputs", "DESIGN.md §5 C02")
 add("C09", "exploration",
-    "Seeded proptest search over (entry type, class, order, n<=40 writer-encoded entries, ragged tails of every residue, access scripts incl. indices at len, len+1, k*2^32+i and near usize::MAX whose byte offset wraps, interleaved iterators, and the provided Iterator methods nth/skip/step_by/count/last/fuse on fresh and partly consumed iterators); model oracle len=floor(bytes/ABI entsize); tables at every address residue, the size_hint contract, direct calls on the concrete relocation iterator types, field-by-field comparison (never the crate's own PartialEq); a second sub-check uses tables of 65 534..200 000 entries.",
+    "Seeded proptest search over (entry type, class, order, n<=40 writer-encoded entries, ragged tails of every residue, access scripts incl. indices at len, len+1, k*2^32+i and near usize::MAX whose byte offset wraps, interleaved iterators, and the provided Iterator methods nth/skip/step_by/count/last/fuse on fresh and partly consumed iterators); model oracle len=floor(bytes/ABI entsize); tables at every address residue, the size_hint contract, direct calls on the concrete relocation iterator types, field-by-field comparison (never the crate's own PartialEq); a second sub-check uses tables of 65 534..200 000 entries; a third (in_file) applies the contract to every table the file-level accessors of ElfBytes and ElfStream hand out on generated/mutated files (tables that are windows of a larger buffer: get(len), get(len+1..), get(2^32|len) must fail) and compares every SHT_REL/SHT_RELA section through ElfBytes and through ElfStream over a short-reading, interrupting reader with a reference decoding of its whole entries.",
     "Trusts the ABI entry sizes (from <elf.h>) and the writer.",
     "model-based property testing (proptest): access scripts against a floor(len/entsize) model and encoder ground truth", "DESIGN.md §5 C09")
 add("C15", "exploration",
-    "Exhaustive enumeration of every table of length 0..7 over {NUL,'a',0xC3,0xA9} at every offset 0..len+2 (233k lookups) plus seeded proptest search over tables up to 4 KiB (4%: up to 200 KiB with NUL-free runs of 4 096 / 65 535+ bytes) with offsets at len-1, len, len+1, k*2^32+i, boundary values and usize::MAX, against a NUL-scan reference, including pointer identity of the returned slice; tables start at every address residue and include valid multi-byte UTF-8 text.",
+    "Exhaustive enumeration of every table of length 0..7 over {NUL,'a',0xC3,0xA9} at every offset 0..len+2 (233k lookups) plus seeded proptest search over tables up to 4 KiB (4%: up to 200 KiB with NUL-free runs of 4 096 / 65 535+ bytes) with offsets at len-1, len, len+1, k*2^32+i, boundary values and usize::MAX, against a NUL-scan reference, including pointer identity of the returned slice; tables start at every address residue and include valid multi-byte UTF-8 text; a 4 GiB+64 byte table (lazily mapped) is looked up at every offset around byte 2^32.",
     "Trusts the NUL-scan reference and core::str::from_utf8.",
     "exhaustive enumeration + property-based testing (proptest) against a reference implementation", "DESIGN.md §5 C15")
 
 add("C11", "exploration",
-    "Seeded proptest search over name sets built to collide (constructed djb2 collisions, low-bit neighbours, same-bucket names, duplicates, empty and high-byte names), table parameters (nbucket, bloom words 1..64, shift 0..31, symoffset) and all four encodings; .gnu.hash sections come from an independent builder (inverse oracle) and every lookup is judged against a linear scan; all queries are also run on ONE table value sorted by hash in both directions (history independence), as slices of the string table's own buffer, and with a NUL appended; a second stream corrupts the tables arbitrarily and checks the soundness clause; the hash function is compared with a djb2 reference exhaustively on short strings and on random strings.",
+    "Seeded proptest search over name sets built to collide (constructed djb2 collisions, low-bit neighbours, same-bucket names, duplicates, empty and high-byte names), table parameters (nbucket, bloom words 1..64, shift 0..31, symoffset) and all four encodings; .gnu.hash sections come from an independent builder (inverse oracle) and every lookup is judged against a linear scan; all queries are also run on ONE table value sorted by hash in both directions (history independence), as slices of the string table's own buffer, with a NUL appended, and alternating with a second symbol table of inverted st_value on the same handle (the entry must come from the table passed to that call); a second stream corrupts the tables arbitrarily and checks the soundness clause; the hash function is compared with a djb2 reference exhaustively on short strings and on random strings.",
     "Trusts the independent GNU-hash builder (bloom/bucket/chain layout per the GNU format) and the linear-scan oracle.",
     "property-based testing (proptest): inverse oracle (table builder) + linear-scan reference + corruption for soundness; exhaustive enumeration for short hash inputs", "DESIGN.md §5 C11")
 add("C12", "exploration",
-    "As C11 for the gABI .hash section: independent builder (head/tail/mixed chain insertion, nbucket 1..64, nchain = symbol count), collisions found by search, long and high-byte names for the top-nibble fold, linear-scan oracle, corruption stream for soundness, sysv_hash against the gABI elf_hash reference exhaustively on 4369 short strings and on random strings.",
+    "As C11 (incl. the one-handle histories with two symbol tables) for the gABI .hash section: independent builder (head/tail/mixed chain insertion, nbucket 1..64, nchain = symbol count), collisions found by search, long and high-byte names for the top-nibble fold, linear-scan oracle, corruption stream for soundness, sysv_hash against the gABI elf_hash reference exhaustively on 4369 short strings and on random strings.",
     "Trusts the independent .hash builder and the transcription of the gABI elf_hash figure.",
     "property-based testing (proptest): inverse oracle (table builder) + linear-scan reference + corruption for soundness; exhaustive enumeration for short hash inputs", "DESIGN.md §5 C12")
 add("C13", "exploration",
@@ -36,7 +36,7 @@ add("C13", "exploration",
     "Trusts the version-graph builder (GNU symbol-versioning layout) and the file builder; well-formedness as scoped in the statement.",
     "property-based testing (proptest) with an inverse oracle: version-graph model -> section bytes -> queries compared with the model", "DESIGN.md §5 C13")
 add("C14", "exploration",
-    "Seeded proptest search over note sequences (sizes of every residue, GNU typed notes, name shapes), alignments incl. non-powers of two and huge values, both byte orders and classes, exact/garbage/truncated/corrupted tails, three access paths; judged against an independent reference walker with pointer-exact name/desc ranges; nth/skip/count/last/step_by/size_hint on fresh and partly consumed iterators must agree with repeated next().",
+    "Seeded proptest search over note sequences (sizes of every residue, GNU typed notes, name shapes), alignments incl. non-powers of two and huge values, both byte orders and classes, exact/garbage/truncated/corrupted tails, three access paths plus ElfStream over short-reading/interrupting readers with one transient I/O failure and a retry (first two successful answers must equal the slice parser's notes); judged against an independent reference walker with pointer-exact name/desc ranges; nth/skip/count/last/step_by/size_hint on fresh and partly consumed iterators must agree with repeated next().",
     "Trusts the 40-line reference walker; ambiguous tails (empty descriptor starting in padding beyond the data) are excluded and counted.",
     "property-based testing (proptest) against a reference implementation (note walker)", "DESIGN.md §5 C14")
 
@@ -46,7 +46,7 @@ add("C19", "exploration",
     "exhaustive enumeration with a differential oracle (reference headers evaluated by the C compiler)", "DESIGN.md §5 C19")
 
 add("C01", "exploration",
-    "Seeded proptest search over (input bytes x walker arguments): structured rich files with boundary-value header overrides and body corruption, linker-produced samples with field-level overrides/splices/truncations, raw bytes; an allocation-free walker calls every public entry point of the no_std core, incl. the stand-alone parsers on arbitrary sub-slices with offsets up to usize::MAX, alignments up to 2^64-1 and counts up to u64::MAX, under overflow checks and debug assertions; parse_ident is enumerated over every buffer length 0..20. Oracle = no panic (validity monitor); the walker also formats every public type with Debug, drives every iterator through the std adaptors and through direct calls on the concrete iterator types, and asks by-name queries built from the file's own names. The thorough tier adds a coverage-guided libFuzzer campaign over the same oracle.",
+    "Seeded proptest search over (input bytes x walker arguments): structured rich files with boundary-value header overrides and body corruption (incl. objects described by their dynamic table: DT_SYMTAB/DT_STRTAB/DT_HASH/DT_VERSYM/... holding the run-time addresses of the file's own sections under 1..3, rarely 74+, PT_LOAD pieces, with or without section headers; large version tables; foreign section types; both header tables at one offset), linker-produced samples with field-level overrides/splices/truncations, raw bytes; an allocation-free walker calls every public entry point of the no_std core, incl. the stand-alone parsers on arbitrary sub-slices with offsets up to usize::MAX, alignments up to 2^64-1 and counts up to u64::MAX, under overflow checks and debug assertions; parse_ident is enumerated over every buffer length 0..20. Oracle = no panic (validity monitor); the walker also formats every public type with Debug, drives every iterator through the std adaptors and through direct calls on the concrete iterator types, and asks by-name queries built from the file's own names. The thorough tier adds a coverage-guided libFuzzer campaign over the same oracle.",
     "A panic is caught with catch_unwind; an abort would end the checker with exit 2. 64-bit host only.",
     "property-based testing (proptest) + coverage-guided fuzzing (libFuzzer) with a no-panic monitor; exhaustive enumeration of short ident buffers", "DESIGN.md §5 C01")
 add("C06", "exploration",
@@ -55,7 +55,7 @@ add("C06", "exploration",
     "property-based testing (proptest) with an allocation-counting monitor; exhaustive configuration enumeration with the compiler as oracle", "DESIGN.md §5 C06")
 
 add("C16", "exploration",
-    "Seeded proptest search over adversarial link structures built on purpose (SysV chain cycles of every length, GNU chains without stop bit, version records with zero/self/overlapping/out-of-range/32-bit-wrapping links and absurd counts, partial trailing records, iterator adaptors on advanced iterators, Debug formatting of cyclic tables) and over the corrupted-file domain with every iterator driven to bound+1 items, plus stream queries behind readers that over-report their length, were cut after being measured, or deliver nothing / fail from some call on; oracle = item-count bounds (one item per input byte, at most the declared count) plus a per-case watchdog (15 s / 60 s) (15 s / 20 s / 60 s) whose expiry is the violation. The thorough tier adds a libFuzzer campaign with -timeout.",
+    "Seeded proptest search over adversarial link structures built on purpose (SysV chain cycles of every length, GNU chains without stop bit, version records with zero/self/overlapping/out-of-range/32-bit-wrapping links and absurd counts, partial trailing records, iterator adaptors on advanced iterators, Debug formatting of cyclic tables) and over the corrupted-file domain with every iterator driven to bound+1 items, plus stream queries behind readers that over-report their length, were cut after being measured, deliver nothing / fail from some call on, or are healthy (the relocation and note iterators a stream hands out are bounded by their section's byte count; files include relocation sections with a recorded entry size of 0 and header tables designated at one offset); oracle = item-count bounds (one item per input byte, at most the declared count) plus a per-case watchdog (15 s / 20 s / 60 s) whose expiry is the violation. The thorough tier adds a libFuzzer campaign with -timeout.",
     "Liveness-flavoured property decided by a watchdog: a hang is detected, termination is not proved; limits sit far above the worst legitimate walk on the generated sizes.",
     "property-based testing (proptest) with item-count invariants and a hang watchdog; coverage-guided fuzzing (libFuzzer) in the thorough tier", "DESIGN.md §5 C16")
 
@@ -77,7 +77,7 @@ add("C05", "exploration",
     "Trusts the independent header reader and the builder; PN_XNUM without a section table is skipped as outside the statement.",
     "property-based testing (proptest) with an inverse oracle (ground-truth layout) and an executable statement of the location rule", "DESIGN.md §5 C05")
 add("C20", "exploration",
-    "Seeded proptest search over generated objects (each kind present/absent independently, shuffled section order, name pool of prefixes/suffixes/duplicates/non-UTF-8/empty names, sh_link to any section, stripped twins, arbitrary flags and sh_entsize on filler sections, compressed relocation sections, dynamic tables that describe a symbol table via DT_SYMTAB/DT_STRTAB inside a PT_LOAD, rarely > 0xffff sections); a second sub-check damages one or two header fields of the common sections and requires the one-pass discovery and the targeted accessors to refuse or accept together; differential oracle between access paths (find_common_data vs targeted accessors vs tables rebuilt from section_data, by-name lookup vs manual scan, typed views vs encoded model, .dynamic vs PT_DYNAMIC of the twin), both parsers.",
+    "Seeded proptest search over generated objects (each kind present/absent independently, shuffled section order, name pool of prefixes/suffixes/duplicates/non-UTF-8/empty names, sh_link to any section, stripped twins, arbitrary flags and sh_entsize on filler sections, compressed relocation sections, relocation sections ending in a partial entry (the iterators' own last()/count() and dynamic()'s are compared with the model on both parsers), dynamic tables that describe a symbol table via DT_SYMTAB/DT_STRTAB inside a PT_LOAD, rarely > 0xffff sections); a second sub-check damages one or two header fields of the common sections and requires the one-pass discovery and the targeted accessors to refuse or accept together; differential oracle between access paths (find_common_data vs targeted accessors vs tables rebuilt from section_data, by-name lookup vs manual scan, typed views vs encoded model, .dynamic vs PT_DYNAMIC of the twin), both parsers.",
     "Trusts the object builder's model (encoded entries) and the reference walkers; wrong-type views only need to be refused.",
     "differential property-based testing (proptest) between alternative access paths, with encoder ground truth", "DESIGN.md §5 C20")
 
@@ -90,7 +90,7 @@ add("C08", "exploration",
     "Trusts the allocator shim and the independent header reader that computes the designated ranges; the version-query allowance is an over-approximation (all version sections).",
     "property-based testing (proptest) with resource monitors (allocation-size bound, read-log containment)", "DESIGN.md §5 C08")
 add("C17", "fault_enumeration",
-    "For each generated base case (file x call history x reader behaviour) the fault-free run counts the I/O calls, then a fault is injected at EVERY single I/O call index for each of error/premature-EOF x transient/permanent plus one error of another io::ErrorKind (Unsupported, WouldBlock, UnexpectedEof, TimedOut, ...) per index (exhaustive single-fault enumeration), plus streams on which every SeekFrom::End fails, plus random multi-fault schedules with short reads; a call that has not returned after 60 s counts as not having returned an error; metamorphic oracle = the fault-free run: the call during which a fault fired returns Err, every other call returns Err or the fault-free answer.",
+    "For each generated base case (file x call history x reader behaviour) the fault-free run counts the I/O calls, then a fault is injected at EVERY single I/O call index for each of error/premature-EOF x transient/permanent plus one error of another io::ErrorKind (Unsupported, WouldBlock, UnexpectedEof, TimedOut, ...) per index (exhaustive single-fault enumeration), plus streams on which every SeekFrom::End fails, plus random multi-fault schedules with short reads; a call that has not returned after 60 s counts as not having returned an error; metamorphic oracle = the fault-free run: the call during which a fault fired returns Err, every other call returns Err or the fault-free answer; the fault-free answers themselves must not depend on how the reader cuts its reads (one base file in 32 has a 64..104 KiB section). Sub-check cache_pressure: 8..97 distinct equal-length ranges read through one handle, one further request while the reader fails (error / EOF / short read followed by either), then every earlier range again in three orders, each answer checked against the file's bytes.",
     "Trusts the fault-injecting reader; Interrupted and short reads are legal behaviour, not failures.",
     "exhaustive single-fault injection over property-based generated histories, metamorphic oracle (fault-free run)", "DESIGN.md §5 C17")
 
